@@ -251,7 +251,7 @@ func (w *world) run(k *Case) (line, impl, specImpl, specWant string, ok bool) {
 		r = w.parseReply(k, f, code, body)
 	}
 	impl = fmt.Sprintf("%s hooks=%d db=%d", r.String(), calls, stored)
-	if seen && last != f.CP {
+	if seen && last != f.CPAny {
 		impl += " hookgot=other" // the webhook must receive the challenge exactly as sent
 	}
 
@@ -455,7 +455,8 @@ func corner() []*Case {
 func genCase(r *c.Rng, thorough bool) *Case {
 	ps := c.Pick(r, provSpecs)
 	k := &Case{Prov: ps.Name}
-	k.MT = c.Pick(r, msgTypes)
+	// weighted towards the types that reach the dispatch (CSR types, CertRep)
+	k.MT = c.Pick(r, []string{"19", "19", "19", "17", "17", "17", "18", "18", "18", "3", "3", "20", "21", "22", "99"})
 	if r.Chance(1, 12) {
 		k.MT = c.Pick(r, []string{"-", "", "019", "1", "2", "16", "23", "03", "3 ", "18\n", "x"})
 	}
